@@ -181,7 +181,11 @@ def eval_site(sg, params, site, radius_spec, supercell, res: Result):
                 extra = np.tile(positions[-1:], (pad, 1))
                 exp, ties = expected(site, ops, M, np.vstack([positions, extra]), radius)
             traj = concretise.make_trajectory(allp.reshape(T, N, 3), ['Li'] * N, M * sc[:, None])
-            shapes = sa.analyze_trajectory(traj, supercell=tuple(supercell), radius=radius)
+            before = np.array(traj.positions)
+            sa.analyze_trajectory(traj, supercell=tuple(supercell), radius=radius)
+            shapes = sa.analyze_trajectory(traj, supercell=tuple(supercell), radius=radius)  # second call, same object
+            if not np.array_equal(np.array(traj.positions), before):
+                res.violation('shape-analysis-modifies-the-trajectory', case, 'positions differ after analyze_trajectory')
         got = np.asarray(shapes[0].coords, dtype=float).reshape(-1, 3)
         dists = np.asarray(shapes[0].distances())
     except Exception as e:  # noqa: BLE001
